@@ -230,7 +230,7 @@ func (f *FuncVC) applyMod(st *State, m resolvedMod, src string) {
 		}
 	}
 	if f.con != nil && f.con.HasMod && m.kind == "ghost" {
-		ok := []string{"false"}
+		ok := []string{cmp(">=", m.obj, f.wmEntry)} // ghost state of an object allocated by this call
 		for _, mm := range f.modTargets {
 			if mm.kind == "all" || (mm.kind == "ghost" && mm.heap == m.heap) {
 				if mm.kind == "all" {
